@@ -146,6 +146,19 @@ def loop_labels(scratch, tdir_tag, h):
     return ",".join(pairs), f"{len(pairs)} loops bounded individually" + ("; " + "; ".join(notes) if notes else "")
 
 
+def reap_orphan_solvers():
+    """Kani's --harness-timeout kills cbmc but not an SMT solver it spawned (#[kani::solver(z3)]); such an
+    orphan (re-parented to pid 1) would spin forever. Kill orphaned z3 processes."""
+    try:
+        out = subprocess.run(["ps", "-eo", "pid,ppid,comm"], stdout=subprocess.PIPE, text=True).stdout
+        for ln in out.splitlines()[1:]:
+            f = ln.split()
+            if len(f) >= 3 and f[2] == "z3" and f[1] == "1":
+                os.kill(int(f[0]), 9)
+    except Exception:  # noqa: BLE001
+        pass
+
+
 def short(name):
     return name.split("::")[-1]
 
@@ -543,6 +556,7 @@ def main():
         pc = dict(pc, _not_finished=not_finished)
         return finish(prop, tier, seed, pc, rows, results, vio_lines, undecided, t_start, cmds, args, sel, findings, rc, logs)
     finally:
+        reap_orphan_solvers()
         if args.keep:
             log(f"[{prop}] scratch kept at {scratch}")
         else:
